@@ -37,12 +37,6 @@ theorem C13_once (M : MM) (S : Script) (v : Val) (gm : Nat) (h : wf M v gm = tru
   exact filter_flatMap_eq _ _ _ _ _ (fun o ho => by
     simpa using calls_filter_common M c hc hp o (wf_typed M v gm h o ho))
 
-theorem count_map_pair (c : Nat) (l : List Nat) (i : Nat) :
-    (l.map (fun x => (c, x))).count (c, i) = l.count i := by
-  induction l with
-  | nil => simp
-  | cons x xs ih => simp [List.count_cons, ih]
-
 /-- …so with distinct object ids every object of class `c` is processed exactly
 once by `c`'s processor, and nothing else is. -/
 theorem C13_once_exactly (M : MM) (S : Script) (v : Val) (gm : Nat) (h : wf M v gm = true)
